@@ -360,7 +360,13 @@ def mutation_rules(chk, hs):
             continue
         falls_back = any(isinstance(x, ast.Call) and U(x.func) == "qfallback" for x in ast.walk(disp))
         # the mutation test has to govern the fallback: every path that returns qfallback(...) has decided "not mutating" on its way
+        # helpers of the package that read the mutability of a schema (`written_arguments(op._schema)`): a test on their result is a mutability test
+        mut_helpers = {f_.name for m_ in repo.modules.values() if m_.rel.startswith("optimum/") for f_ in ast.walk(m_.tree) if isinstance(f_, ast.FunctionDef)
+                       and any(isinstance(x, ast.Attribute) and x.attr in ("is_write", "is_mutable") for x in ast.walk(f_)) and not f_.name.startswith("__") and f_.name != "qbytes_inplace_fallback"}
+
         def _is_mut_atom(a: str) -> bool:
+            if any(f"{h_}(" in a for h_ in mut_helpers) and " and " not in a and " or " not in a:
+                return True
             # a single test, not a conjunction that merely mentions it (the falsity of `is_mutable and <other>` says nothing about is_mutable)
             return any(k in a for k in ("is_mutable", "is_write", "alias_info", ".endswith('_')")) and " and " not in a and " or " not in a
         fb_paths = [p_ for p_ in paths_of(disp) if p_.end and p_.end[0] == "return" and isinstance(p_.end[1], ast.Call) and U(p_.end[1].func) == "qfallback"]
